@@ -606,5 +606,325 @@ Proof.
     exfalso. exact (Ha Hact eq_refl Ht).
 Qed.
 
-(*THMS2*)
 End ServerProofs.
+
+(* ------------------------------------------------------------------------------------ *)
+(* client: the invariant *)
+
+Section ClientProofs.
+Variables ch sh : list N.
+
+Definition auth (k : conn) : Prop := k_first k = Some sh /\ k_tx k = ch.
+Definition authd (o : option conn) : Prop := exists k, o = Some k /\ auth k.
+
+(* the connector goroutine's program point against its connection *)
+Definition kinv_at (kp : kpc) (o : option conn) : Prop :=
+  match kp with
+  | KCall => o = None
+  | KChk | KWrite => exists k, o = Some k /\ k_first k = None /\ k_tx k = []
+  | KRead => exists k, o = Some k /\ k_first k = None /\ k_tx k = ch
+  | KCmp r => exists k, o = Some k /\ k_first k = r /\ k_tx k = ch
+  | KSend => authd o
+  | KDone => True
+  end.
+
+Lemma authd_same : forall k k', same_ghost k k' -> authd (Some k) -> authd (Some k').
+Proof.
+  intros k k' (_ & Hf & Ht & _) (k0 & E & Hf0 & Ht0). injection E as <-.
+  exists k'. split; [reflexivity|]. unfold auth. rewrite Hf, Ht. split; assumption.
+Qed.
+
+Lemma kinv_same : forall kp k k', same_ghost k k' -> kinv_at kp (Some k) -> kinv_at kp (Some k').
+Proof.
+  intros kp k k' Hs H. pose proof Hs as (_ & Hf & Ht & _).
+  destruct kp; cbn [kinv_at] in *; try exact I; try discriminate H;
+    try (destruct H as (k0 & E & Hf0 & Ht0); injection E as <-; exists k'; rewrite Hf, Ht; auto).
+  exact (authd_same k k' Hs H).
+Qed.
+
+Definition CInv (s : cstate) : Prop :=
+  kinv_at (c_kpc s) (c_conn s) /\
+  (c_chan s = Some true \/ c_spc s = SStore \/ c_spc s = SPump \/ c_tconn s = true ->
+     c_kpc s = KDone /\ authd (c_conn s)) /\
+  (c_spc s = SStore \/ c_spc s = SPump \/ c_tconn s = true -> c_timedout s = false) /\
+  (c_spc s = SSelect -> c_timedout s = false /\ c_tconn s = false) /\
+  (c_spc s = SPump -> c_tconn s = true) /\
+  (c_pump s = true -> c_tconn s = true) /\
+  (c_tconnected s = true -> c_tconn s = true) /\
+  (c_writer_tunnel s = c_tconnected s) /\
+  (c_mpc s = MWait \/ c_wg_done s = true) /\
+  (c_wg_done s = true <-> c_spc s = SDone) /\
+  (c_tconnected s = false -> c_dropped s = []) /\
+  match c_mpc s with
+  | MSent tun => tun = c_tconn s /\ c_tconnected s = tun
+  | _ => c_tconnected s = false
+  end.
+
+Ltac cproj := cbn [c_conn c_kpc c_chan c_spc c_timer c_timedout c_wg_done c_mpc c_tconn c_tconnected
+                   c_writer_tunnel c_pump c_inbuf c_dropped] in *.
+Ltac kproj := cbn [k_script k_rx k_eof k_pc k_first k_tx k_closed k_won k_pump] in *.
+Ltac split_all := repeat match goal with |- _ /\ _ => split end.
+
+Lemma CInv_init : CInv c_init.
+Proof.
+  unfold CInv, c_init. cproj. cbn [kinv_at]. split_all; try reflexivity.
+  - intros [H|[H|[H|H]]]; discriminate H.
+  - intros _. split; reflexivity.
+  - intros H; discriminate H.
+  - intros H; discriminate H.
+  - intros H; discriminate H.
+  - left. reflexivity.
+  - split; intros H; discriminate H.
+Qed.
+
+(* the connector goroutine moves (it is not at KDone): nothing has been handed over yet *)
+Ltac not_handed H1 :=
+  let Hor := fresh "Hor" in let Hk := fresh "Hk" in
+  intros Hor; exfalso;
+  assert (Hk : _ = KDone) by
+    (apply H1; first [exact Hor | destruct Hor as [Hor|Hor]; [discriminate Hor|right; exact Hor]]);
+  discriminate Hk.
+
+Lemma cstep_inv : forall s l s', CInv s -> cstep ch sh s l = Some s' -> CInv s'.
+Proof.
+  intros s l s' Hinv Hstep.
+  destruct s as [conn kp chan sp timer tmo wg mp tconn tcd wt pump inbuf dropped].
+  unfold CInv in *. cproj.
+  destruct Hinv as (HK & H1 & H2 & H3 & H4 & H5 & H6 & H7 & H8 & H9 & H10 & H11).
+  destruct l as [o|tm wfail| | | | | | |n|bs| ]; unfold cstep, cgive_up, cset in Hstep; cproj.
+  - (* CConnector *)
+    destruct kp; try discriminate Hstep.
+    destruct o as [script|]; injection Hstep as <-; cproj; split_all; try assumption.
+    + cbn [kinv_at]. eexists. split; [reflexivity|]. unfold new_conn. kproj. split; reflexivity.
+    + not_handed H1.
+    + exact I.
+    + not_handed H1.
+  - (* CK *)
+    destruct conn as [k|]; [|discriminate Hstep].
+    destruct kp as [ | | | |r| | ]; try discriminate Hstep; cbn [kinv_at] in HK.
+    + (* KChk *)
+      destruct tm; injection Hstep as <-; cproj; split_all; try assumption; try exact I; not_handed H1.
+    + (* KWrite *)
+      destruct HK as (k0 & E & Hf & Ht). injection E as <-.
+      destruct wfail; [|destruct tm]; injection Hstep as <-; cproj; split_all; try assumption;
+        try exact I; try (not_handed H1).
+      cbn [kinv_at]. eexists. split; [reflexivity|]. kproj. rewrite Ht. cbn [app]. split; [exact Hf|reflexivity].
+    + (* KRead *)
+      destruct HK as (k0 & E & Hf & Ht). injection E as <-.
+      destruct (k_rx k) as [|b rx] eqn:Erx; [destruct (k_eof k); [|discriminate Hstep]|];
+        injection Hstep as <-; cproj; split_all; try assumption; try (not_handed H1).
+      * cbn [kinv_at]. exists k. auto.
+      * cbn [kinv_at]. eexists. split; [reflexivity|]. kproj. split; [reflexivity|exact Ht].
+    + (* KCmp *)
+      destruct HK as (k0 & E & Hf & Ht). injection E as <-.
+      destruct r as [got|]; [destruct (hello_matches got sh && negb tm) eqn:Em|];
+        injection Hstep as <-; cproj; split_all; try assumption; try exact I; try (not_handed H1).
+      apply andb_true_iff in Em. destruct Em as [Em _]. apply hello_matches_true in Em. subst got.
+      cbn [kinv_at]. exists k. split; [reflexivity|]. split; assumption.
+    + (* KSend *)
+      injection Hstep as <-; cproj; split_all; try assumption; try exact I.
+      intros _. split; [reflexivity|exact HK].
+  - (* CPeer *)
+    destruct conn as [k|]; [|discriminate Hstep].
+    destruct (peer_step k) as [k'|] eqn:Ep; [|discriminate Hstep].
+    injection Hstep as <-. cproj. pose proof (same_peer k k' Ep) as Hs. split_all; try assumption.
+    + exact (kinv_same kp k k' Hs HK).
+    + intros Hor. destruct (H1 Hor) as [Hk Ha]. split; [exact Hk|exact (authd_same k k' Hs Ha)].
+  - (* CTimer *)
+    injection Hstep as <-. cproj. split_all; assumption.
+  - (* CSelChan *)
+    destruct sp; try discriminate Hstep. destruct chan as [v|]; [|discriminate Hstep].
+    destruct (H3 eq_refl) as [H3a H3b].
+    destruct v; injection Hstep as <-; cproj; split_all; try assumption.
+    + intros _. apply H1. left. reflexivity.
+    + intros _. exact H3a.
+    + intros H; discriminate H.
+    + intros H; discriminate H.
+    + split; intros H; [apply H9 in H; discriminate H|discriminate H].
+    + intros [H|[H|[H|H]]]; try discriminate H. rewrite H3b in H. discriminate H.
+    + intros [H|[H|H]]; try discriminate H. rewrite H3b in H. discriminate H.
+    + intros H; discriminate H.
+    + intros H; discriminate H.
+    + right. reflexivity.
+    + split; intros _; reflexivity.
+  - (* CSelTimer *)
+    destruct sp; try discriminate Hstep. destruct timer; [|discriminate Hstep].
+    destruct (H3 eq_refl) as [H3a H3b].
+    injection Hstep as <-; cproj; split_all; try assumption.
+    + intros [H|[H|[H|H]]]; try discriminate H; [|rewrite H3b in H; discriminate H].
+      apply H1. left. exact H.
+    + intros [H|[H|H]]; try discriminate H. rewrite H3b in H. discriminate H.
+    + intros H; discriminate H.
+    + intros H; discriminate H.
+    + right. reflexivity.
+    + split; intros _; reflexivity.
+  - (* CS *)
+    destruct sp; try discriminate Hstep; injection Hstep as <-; cproj; split_all; try assumption.
+    + (* SStore *) intros _. apply H1. right. left. reflexivity.
+    + intros _. apply H2. left. reflexivity.
+    + intros H; discriminate H.
+    + intros _. reflexivity.
+    + intros _. reflexivity.
+    + intros _. reflexivity.
+    + split; intros H; [apply H9 in H; discriminate H|discriminate H].
+    + destruct mp as [ | |tun]; try assumption.
+      exfalso. destruct H8 as [H|H]; [discriminate H|]. apply H9 in H. discriminate H.
+    + (* SPump *) intros _. apply H1. right. right. left. reflexivity.
+    + intros _. apply H2. right. left. reflexivity.
+    + intros H; discriminate H.
+    + intros H; discriminate H.
+    + intros _. apply H4. reflexivity.
+    + right. reflexivity.
+    + split; intros _; reflexivity.
+  - (* CMain *)
+    destruct mp as [ | |tun]; try discriminate Hstep.
+    + destruct wg; [|discriminate Hstep]. injection Hstep as <-; cproj; split_all; try assumption.
+      right. reflexivity.
+    + injection Hstep as <-; cproj; split_all; try assumption; try reflexivity.
+      * intros H. exact H.
+      * destruct H8 as [H|H]; [discriminate H|right; exact H].
+      * intros _. apply H10. exact H11.
+  - (* CPumpRead *)
+    destruct conn as [k|]; [|discriminate Hstep].
+    match type of Hstep with (if ?b then _ else _) = _ => destruct b end; [|discriminate Hstep].
+    cbn [add_received] in Hstep. injection Hstep as <-. cproj. split_all; try assumption.
+    + exact (kinv_same kp k _ (same_set_rx _ k) HK).
+    + intros Hor. destruct (H1 Hor) as [Hk Ha]. split; [exact Hk|exact (authd_same k _ (same_set_rx _ k) Ha)].
+  - (* CInband *)
+    unfold add_received in Hstep. destruct tcd; injection Hstep as <-; cproj; split_all; try assumption.
+    intros H; discriminate H.
+  - (* CCleanup *)
+    destruct tconn; [destruct conn as [k|]|]; injection Hstep as <-; cproj; split_all; try assumption.
+    + exact (kinv_same kp k _ (same_set_closed k) HK).
+    + intros Hor. destruct (H1 Hor) as [Hk Ha]. split; [exact Hk|exact (authd_same k _ (same_set_closed k) Ha)].
+Qed.
+
+Lemma crun_inv : forall ls s s', CInv s -> crun ch sh s ls = Some s' -> CInv s'.
+Proof.
+  induction ls as [|l ls IH]; intros s s' Hinv Hrun; cbn [crun] in Hrun.
+  - injection Hrun as <-. exact Hinv.
+  - destruct (cstep ch sh s l) as [s1|] eqn:E; [|discriminate Hrun].
+    apply (IH s1 s'); [|exact Hrun]. exact (cstep_inv s l s1 Hinv E).
+Qed.
+
+Lemma creach_inv : forall s, creach ch sh s -> CInv s.
+Proof. intros s [ls H]. exact (crun_inv ls c_init s CInv_init H). Qed.
+
+(* ------------------------------------------------------------------------------------ *)
+(* client: the theorems *)
+
+Lemma client_adopted_authenticated : forall s, creach ch sh s ->
+  c_tconn s = true \/ c_pump s = true \/ c_writer_tunnel s = true \/ c_tconnected s = true ->
+  exists k, c_conn s = Some k /\ k_first k = Some sh /\ k_tx k = ch /\ c_timedout s = false /\ c_tconn s = true.
+Proof.
+  intros s Hr Hor. apply creach_inv in Hr.
+  destruct Hr as (_ & H1 & H2 & _ & _ & H5 & H6 & H7 & _).
+  assert (Ht : c_tconn s = true).
+  { destruct Hor as [H|[H|[H|H]]]; [exact H|exact (H5 H)| |exact (H6 H)].
+    apply H6. rewrite <- H7. exact H. }
+  assert (Hor' : c_chan s = Some true \/ c_spc s = SStore \/ c_spc s = SPump \/ c_tconn s = true)
+    by (right; right; right; exact Ht).
+  destruct (H1 Hor') as (_ & k & Ek & Hf & Htx).
+  exists k. split; [exact Ek|]. split; [exact Hf|]. split; [exact Htx|]. split; [|exact Ht].
+  apply H2. right. right. exact Ht.
+Qed.
+
+Lemma fallback_client : forall s, creach ch sh s ->
+  (forall tun, c_mpc s = MSent tun -> tun = c_tconn s /\ c_tconnected s = tun /\ c_writer_tunnel s = tun) /\
+  (c_timedout s = true -> c_tconn s = false) /\
+  (c_conn s = None -> c_tconn s = false) /\
+  (forall k, c_conn s = Some k -> k_first k <> Some sh -> c_tconn s = false) /\
+  (c_tconnected s = false -> c_writer_tunnel s = false /\ c_dropped s = []).
+Proof.
+  intros s Hr. apply creach_inv in Hr.
+  destruct Hr as (_ & H1 & H2 & _ & _ & _ & _ & H7 & _ & _ & H10 & H11).
+  assert (Hauth : c_tconn s = true -> authd (c_conn s)).
+  { intros Ht. apply H1. right. right. right. exact Ht. }
+  split; [|split; [|split; [|split]]].
+  - intros tun Hm. rewrite Hm in H11. destruct H11 as [Ha Hb]. split; [exact Ha|]. split; [exact Hb|].
+    rewrite H7. exact Hb.
+  - intros Htmo. destruct (c_tconn s) eqn:Et; [|reflexivity].
+    rewrite H2 in Htmo; [discriminate Htmo|]. right. right. reflexivity.
+  - intros Hc. destruct (c_tconn s) eqn:Et; [|reflexivity].
+    destruct (Hauth eq_refl) as (k & Ek & _). rewrite Hc in Ek. discriminate Ek.
+  - intros k Hc Hf. destruct (c_tconn s) eqn:Et; [|reflexivity].
+    destruct (Hauth eq_refl) as (k0 & Ek & Hf0 & _). rewrite Hc in Ek. injection Ek as <-.
+    exfalso. exact (Hf Hf0).
+  - intros Ht. split; [rewrite H7; exact Ht|exact (H10 Ht)].
+Qed.
+
+Lemma client_never_stuck : forall s, creach ch sh s -> c_mpc s = MWait ->
+  exists ls s' tun, (length ls <= 5)%nat /\ forallb own_label ls = true /\
+    crun ch sh s ls = Some s' /\ c_mpc s' = MSent tun.
+Proof.
+  intros s Hr Hm. apply creach_inv in Hr.
+  destruct s as [conn kp chan sp timer tmo wg mp tconn tcd wt pump inbuf dropped].
+  unfold CInv in Hr. cproj. subst mp.
+  destruct Hr as (_ & _ & _ & _ & _ & _ & _ & _ & _ & H9 & _).
+  destruct sp.
+  - exists [CTimer; CSelTimer; CMain; CMain]. eexists. eexists.
+    split; [cbn [length]; lia|]. split; [reflexivity|]. split; [cbn [crun cstep]; cproj; reflexivity|].
+    cproj. reflexivity.
+  - exists [CS; CS; CMain; CMain]. eexists. eexists.
+    split; [cbn [length]; lia|]. split; [reflexivity|]. split; [cbn [crun cstep]; cproj; reflexivity|].
+    cproj. reflexivity.
+  - exists [CS; CMain; CMain]. eexists. eexists.
+    split; [cbn [length]; lia|]. split; [reflexivity|]. split; [cbn [crun cstep]; cproj; reflexivity|].
+    cproj. reflexivity.
+  - assert (Hwg : wg = true) by (apply H9; reflexivity). subst wg.
+    exists [CMain; CMain]. eexists. eexists.
+    split; [cbn [length]; lia|]. split; [reflexivity|]. split; [cbn [crun cstep]; cproj; reflexivity|].
+    cproj. reflexivity.
+Qed.
+
+Lemma cstep_inband : forall s l s', CInv s -> c_tconnected s = true -> cstep ch sh s l = Some s' ->
+  c_tconnected s' = true /\ filter is_inband (c_inbuf s') = filter is_inband (c_inbuf s).
+Proof.
+  intros s l s' Hinv Ht Hstep.
+  destruct s as [conn kp chan sp timer tmo wg mp tconn tcd wt pump inbuf dropped].
+  destruct Hinv as (_ & _ & _ & _ & _ & _ & H6 & _).
+  cproj. subst tcd.
+  destruct l as [o|tm wfail| | | | | | |n|bs| ]; unfold cstep, cgive_up, cset in Hstep; cproj.
+  - destruct kp; try discriminate Hstep. destruct o; injection Hstep as <-; split; reflexivity.
+  - destruct conn as [k|]; [|discriminate Hstep].
+    destruct kp as [ | | | |r| | ]; try discriminate Hstep.
+    + destruct tm; injection Hstep as <-; split; reflexivity.
+    + destruct wfail; [|destruct tm]; injection Hstep as <-; split; reflexivity.
+    + destruct (k_rx k); [destruct (k_eof k); [|discriminate Hstep]|]; injection Hstep as <-; split; reflexivity.
+    + destruct r as [got|]; [destruct (hello_matches got sh && negb tm)|]; injection Hstep as <-; split; reflexivity.
+    + injection Hstep as <-; split; reflexivity.
+  - destruct conn as [k|]; [|discriminate Hstep].
+    destruct (peer_step k); [|discriminate Hstep]. injection Hstep as <-; split; reflexivity.
+  - injection Hstep as <-; split; reflexivity.
+  - destruct sp; try discriminate Hstep. destruct chan; [|discriminate Hstep].
+    injection Hstep as <-; split; reflexivity.
+  - destruct sp; try discriminate Hstep. destruct timer; [|discriminate Hstep].
+    injection Hstep as <-; split; reflexivity.
+  - destruct sp; try discriminate Hstep; injection Hstep as <-; split; reflexivity.
+  - destruct mp; try discriminate Hstep.
+    + destruct wg; [|discriminate Hstep]. injection Hstep as <-; split; reflexivity.
+    + injection Hstep as <-. cproj. split; [|reflexivity].
+      exact (H6 eq_refl).
+  - destruct conn as [k|]; [|discriminate Hstep].
+    match type of Hstep with (if ?b then _ else _) = _ => destruct b end; [|discriminate Hstep].
+    cbn [add_received] in Hstep. injection Hstep as <-. cproj. split; [reflexivity|].
+    apply filter_inband_conn.
+  - cbn [add_received] in Hstep. injection Hstep as <-. split; reflexivity.
+  - destruct tconn; [destruct conn|]; injection Hstep as <-; split; reflexivity.
+Qed.
+
+Lemma client_inband_ignored : forall s ls s', creach ch sh s -> c_tconnected s = true ->
+  crun ch sh s ls = Some s' ->
+  c_tconnected s' = true /\ filter is_inband (c_inbuf s') = filter is_inband (c_inbuf s).
+Proof.
+  intros s ls s' Hr. apply creach_inv in Hr. revert s Hr.
+  induction ls as [|l ls IH]; intros s Hinv Ht Hrun; cbn [crun] in Hrun.
+  - injection Hrun as <-. split; [exact Ht|reflexivity].
+  - destruct (cstep ch sh s l) as [s1|] eqn:E; [|discriminate Hrun].
+    destruct (cstep_inband s l s1 Hinv Ht E) as [Ht1 Hf1].
+    destruct (IH s1 (cstep_inv s l s1 Hinv E) Ht1 Hrun) as [Ht' Hf']. split; [exact Ht'|].
+    rewrite Hf'. exact Hf1.
+Qed.
+
+
+End ClientProofs.
